@@ -435,10 +435,13 @@ theorem C07_nonvacuous_terminal :
 
 The theorems above are about the model with `dqnLocked = true`, `emptyQueue()` reading the list
 before the counter and `doCanProcess()` evaluating `emptyQueue()` before the notify counter.  These
-three facts are re-read from eventqueue.h / hetereventqueue.h on every run; if the source stops
-decrementing under the mutex or reorders the reads, this theorem no longer checks. -/
+facts - and that the model's `nc` is the number of LIVE DisableQueueNotify objects: every constructor,
+the copy constructor included, registers the object once and no special member hands a registration over
+(D13) - are re-read from eventqueue.h / hetereventqueue.h on every run; if the source stops
+decrementing under the mutex, reorders the reads or lets two objects share one registration, this theorem
+no longer checks. -/
 theorem C07_bridge_source :
-    Evp.Gen.Queue.homo_dqnLocked = true ∧ Evp.Gen.Queue.homo_listFirst = true ∧
+    Evp.Gen.Queue.homo_dqnLocked = true ∧ Evp.Gen.Queue.homo_dqnCopyCounts = true ∧ Evp.Gen.Queue.homo_listFirst = true ∧
     Evp.Gen.Queue.homo_emptyFirst = true ∧ Evp.Gen.Queue.heter_listFirst = true ∧
     Evp.Gen.Queue.heter_emptyFirst = true := by decide
 
